@@ -29,6 +29,15 @@ def plan(tier: str, seed: int) -> Plan:
     for q in Q2:
         conds.append(Condition(f"arrays:{q}", "pipeline", H, "pipeline", {"qtext": q, "doc": 2}, T,
                                bounds="array document with an object whose members are '0' and '1'; symbolic leaves, inner array length<=2"))
+    Q3 = ["$.rows[::2]", "$.rows[::-2]", "$.rows[1::2]", "$.rows[3:0:-2]", "$['1'][::3]", "$['1'][-1::-2]", "$..[::2]"]
+    for q in Q3:
+        for route in ("sync", "async"):
+            conds.append(Condition(f"slices:{route}:{q}", "pipeline", H, "pipeline", {"qtext": q, "doc": 3, "route": route}, T, required=False,
+                                   bounds="arrays of 2..4 and 5 symbolic int elements under slices with |step| >= 2; sync and async matching"))
+    for q in ["$.*", "$['-1'][*]", "$['01'].*", "$..[?@ > 2]"]:
+        conds.append(Condition(f"text-history:{q}", "text-history", H, "text_history", {"qtext": q, "doc": 0}, T, required=False,
+                               bounds="the document is one fixed JSON text; symbolic choice of two (equal or adjacent) matches and two operations applied one after "
+                                      "the other to the same text, symbolic replacement value (solver-driven enumeration of the choices)"))
     conds.append(Condition("names-leafvalue:$..*", "pipeline", H, "pipeline", {"qtext": "$..*", "doc": 0, "vleaf": "leaf"}, T * 2, required=False,
                            bounds="replacement value of any primitive kind"))
     return Plan(
